@@ -256,19 +256,11 @@ def run_configs(g, rng, n, inject=True):
             kd.append("T" if r < 0.5 else ("F" if r < 0.85 else "E"))
         ij = 0
         ps = list(ins)
-        if inject and rng.random() < 0.6:
-            # the injected data: mostly one with a producer in the graph (the external thread races with the
-            # producer), sometimes an input (races with the activation).  Never the output of a vertex with an
-            # essential dependency: on the pinned commit that makes the real library push onto a foreign stack
-            # (finding C05_external_emit, part B) -- undefined behaviour the harness must not provoke; the L2 model
-            # covers it (NoDanglingStack).
-            cand = [v for v in range(1, nv + 1) if not any(d["ess"] for d in g["deps"][v - 1])]
-            if cand and rng.random() < 0.8:
-                ij = rng.choice(cand)
-            elif ins:
-                ij = rng.choice(ins)
-            if ij in ps:
-                ps.remove(ij)
+        if inject and ins and rng.random() < 0.5:
+            # the injected data is a pure input (no producer vertex: multiple producers are outside the property):
+            # another thread publishes it concurrently with Graph::run instead of before it
+            ij = rng.choice(ins)
+            ps.remove(ij)
         if rng.random() < 0.15 and nv > 1:
             extra = rng.randint(1, nv)
             if extra != ij and extra not in tg:
@@ -501,13 +493,14 @@ def committed_families():
         quick.append(no_inject({"g": g, "x": (0, 1, 2)[k % 3], "cycles": run_configs(g, rng, 2 if k % 4 == 0 else 1)}))
         for _ in range(3):
             deep.append(no_inject({"g": g, "x": rng.choice((1, 2, 2)), "cycles": run_configs(g, rng, 2)}))
-    for gs, nd, cy in (("v4_v5_v1c2.2u1", 5, "t3-p45-j2-kfttft-f"), ("v4_v1_v2", 4, "t3-p4-j2-ktttt-f"), ("v4_v4_v1c2e.2u1", 4, "t3-p4-j1-ktett-f"),
-                       ("v3_v4u1e", 4, "t2-p34-j1-kfttt-f"), ("v4_v1e_v2e", 4, "t3-p4-j2-ketet-f")):
+    for gs, nd, cy in (("v2", 2, "t1-p-j2-ktt-f"), ("v3_v1", 3, "t2-p-j3-kttt-f_t2-p3-j0-kttt-f"), ("v4_v5_v1c2.2u1", 5, "t3-p4-j5-kfttft-f"),
+                       ("v4_v4_v1c2e.2u1", 4, "t3-p-j4-ktftt-f"), ("v3_v4u1e", 4, "t2-p3-j4-kfttt-f"), ("v4_v5_v2u1e", 5, "t13-p5-j4-kfttft-f")):
         inj.append({"g": check_graph({"nd": nd, "deps": parse_g(gs)}), "x": 1, "cycles": parse_cy(cy, nd)})
-    finding = [{"g": check_graph({"nd": 3, "deps": parse_g("v3e_v1")}), "x": 0, "cycles": parse_cy("t2-p3-j1-ktte-f", 3)}]
     live = [{"g": check_graph({"nd": nd, "deps": parse_g(gs)}), "x": x, "cycles": parse_cy(cy, nd)}
             for gs, nd, x, cy in (("v2", 2, 0, "t1-p2-j0-ktt-f_t1-p2-j0-ktt-f"), ("v3_v1", 3, 1, "t2-p3-j0-kttt-f"), ("v2c3", 3, 1, "t1-p23-j0-kttf-f"),
                                   ("v3_v4u1e", 4, 2, "t2-p34-j0-kfttt-f"), ("v4_v4_v1.2", 4, 2, "t3-p4-j0-ktttt-f"))]
+    # smallest witness of finding C05_concurrent_input_emit_not_counted: I -> V -> T, the input published by another thread
+    finding = [{"g": check_graph({"nd": 2, "deps": parse_g("v2")}), "x": 1, "cycles": parse_cy("t1-p-j2-ktt-f", 2)}]
     return {"Fam_quick": quick, "Fam_inj": inj, "Fam_finding": finding, "Fam_live": live, "Fam_deep": deep}
 
 
